@@ -35,13 +35,14 @@ def wbytes(ns):
 # listed ones holds syntactically the same value as at entry.
 
 def only_modifies(ns, *allowed):
-    """allowed: (object value, field).  Decided syntactically on the executor's heap
-    (sound: an unchanged location keeps the identical term)."""
+    """allowed: (object value, field).  Every other heap location of a pre-existing object must hold
+    the identical term as at entry or a value equal to it."""
     if ns._assume:
         # at a call site the frame is enforced by the `modifies` list (only those fields are havocked)
         return VBool(z3.BoolVal(True))
     st, old = ns._st, ns._old
     ok = set()
+    eqs = []
     for (o, f) in allowed:
         if isinstance(o, VObj):
             ok.add((o.oid, f))
@@ -55,8 +56,16 @@ def only_modifies(ns, *allowed):
             # created by a store on a pre-existing object is a frame violation
             return VBool(z3.BoolVal(False))
         if not same_value(val, old.heap[key]):
-            return VBool(z3.BoolVal(False))
-    return VBool(z3.BoolVal(True))
+            o = old.heap[key]
+            if isinstance(val, VInt) and isinstance(o, VInt):
+                eqs.append(val == o)
+            elif isinstance(val, VBool) and isinstance(o, VBool):
+                eqs.append(val == o)
+            elif isinstance(val, VSeq) and isinstance(o, VSeq):
+                eqs.append(S.seq_eq(val, o))
+            else:
+                return VBool(z3.BoolVal(False))
+    return S.And(*eqs)
 
 
 def appended(ns, enc):
